@@ -18,7 +18,7 @@ type BulkOp struct {
 }
 
 func bulkDoc(i int, pad int) m.Doc {
-	d := m.Doc{"_id": ID(i + 1), "x": int64(i % 7), "y": int64(i), "g": int64(i % 3), "xy": int64((i * 5) % 11)}
+	d := m.Doc{"_id": ID(i + 1), "x": int64(i % 7), "y": int64(i), "g": int64(i % 3), "xy": int64((i * 5) % 11), "n": map[string]interface{}{"a": int64(i % 5), "b": "keep"}}
 	if pad > 0 {
 		d["pad"] = strings.Repeat("p", pad)
 	}
@@ -48,6 +48,10 @@ func BulkOps() []BulkOp {
 		mk("updatefunc-all-inplace", m.Op{K: "updateFunc", Q: all(nil), Upd: upd("inplace", "x", "s", "w", true)}),
 		mk("updatefunc-sort-skip-limit", m.Op{K: "updateFunc", Q: &m.Q{Coll: "a", Sort: []m.SortOpt{{Field: "x", Dir: 1}}, SkipSet: true, Skip: 2, LimitSet: true, Limit: 5}, Upd: upd("copy", "x", int64(50))}),
 		mk("updatefunc-window-nosort", m.Op{K: "updateFunc", Q: &m.Q{Coll: "a", Crit: xge3, SkipSet: true, Skip: 1, LimitSet: true, Limit: 3}, Upd: upd("inplace", "w", int64(9))}),
+		mk("update-nested-field-by-path", m.Op{K: "update", Q: all(m.Leaf("gte", "n.a", int64(2))), Set: map[string]interface{}{"n.a": int64(77)}}),
+		mk("updatefunc-nested-field-inplace", m.Op{K: "updateFunc", Q: &m.Q{Coll: "a", Crit: m.Leaf("lte", "n.a", int64(3)), Sort: []m.SortOpt{{Field: "n.a", Dir: 1}}}, Upd: upd("inplace", "n.a", int64(9))}),
+		mk("updatefunc-replace-nested-object", m.Op{K: "updateFunc", Q: all(nil), Upd: upd("copy", "n", map[string]interface{}{"a": int64(1)})}),
+		mk("delete-on-nested-field", m.Op{K: "delete", Q: all(m.Leaf("eq", "n.a", int64(0)))}),
 		mk("updatefunc-remove", m.Op{K: "updateFunc", Q: all(m.Leaf("eq", "g", int64(0))), Upd: &m.Updater{Nil: true}}),
 		{Name: "drop-and-recreate", Op: func(int) m.Op { return m.Op{K: "dropColl", Coll: "a"} }, Then: func(int) []m.Op {
 			return []m.Op{{K: "createColl", Coll: "a"}, {K: "insert", Coll: "a", Docs: []m.Doc{bulkDoc(0, 0)}}}
